@@ -200,10 +200,14 @@ pub fn execute(case: &Case, opts: ExecOpts, mut instr: Box<dyn Instrument>, fata
         });
         // ---- reference: every query alone, quiet, on a one-worker pool ----
         if opts.reference {
-            match catch_unwind(AssertUnwindSafe(|| build_app(&case.world.config(true)))) {
+            // (`build_in_pool`: the reference application is built by the one worker of its own pool, so that a build
+            // which hands work to rayon finds a pool of one - in order, alone - and not the process-wide default pool)
+            let ref_in_pool = case.params.get("build_in_pool").and_then(|x| x.as_bool()).unwrap_or(false);
+            let ref_pool = harness::make_pool(1);
+            match catch_unwind(AssertUnwindSafe(|| if ref_in_pool { ref_pool.install(|| build_app(&case.world.config(true))) } else { build_app(&case.world.config(true)) })) {
                 Ok(Ok(mut app)) => {
                     instr.after_build(&mut app, true);
-                    let pool = harness::make_pool(1);
+                    let pool = ref_pool;
                     for b in &case.batches {
                         let mut per = vec![];
                         for q in b {
@@ -284,13 +288,24 @@ pub fn execute(case: &Case, opts: ExecOpts, mut instr: Box<dyn Instrument>, fata
             sim::set_quiet(false);
         }
         let via_bindings = case.params.get("via_bindings").and_then(|x| x.as_bool()).unwrap_or(false);
-        let built = catch_unwind(AssertUnwindSafe(|| if via_bindings { build_app_via_bindings(&case.world.config(false)) } else { build_app(&case.world.config(false)) }));
+        // (`build_in_pool`: the application is built by a thread of the worker pool - whatever the build hands to
+        // rayon then runs on the simulated workers)
+        let build_in_pool = case.params.get("build_in_pool").and_then(|x| x.as_bool()).unwrap_or(false);
+        let early_pool = if build_in_pool { Some(harness::make_pool(case.workers)) } else { None };
+        let build = || if via_bindings { build_app_via_bindings(&case.world.config(false)) } else { build_app(&case.world.config(false)) };
+        let built = catch_unwind(AssertUnwindSafe(|| match &early_pool {
+            Some(p) => p.install(build),
+            None => build(),
+        }));
         sim::set_quiet(true);
         match built {
             Ok(Ok(mut app)) => {
                 instr.after_build(&mut app, false);
                 let app = Bind { app };
-                let pool = harness::make_pool(case.workers);
+                let pool = match early_pool {
+                    Some(p) => p,
+                    None => harness::make_pool(case.workers),
+                };
                 let two_callers = case.params.get("two_callers").and_then(|x| x.as_bool()).unwrap_or(false) && case.batches.len() == 2;
                 if two_callers {
                     // two caller threads share the application (its services, caches, plugins): each hands one
